@@ -1,15 +1,16 @@
 (* Lock_proofs.v -- proofs about the workspace-lock model Lock.v (property C10).
 
-   Invariants of the guarded relation (DESIGN 5.C10), with owns p i := pc p = Created i \/ Held i:
+   Invariants of the guarded relation (DESIGN 5.C10), with owns p i := pc p = Held i:
      J    owns p i -> lock = Some i
      J'   owns p i -> owns q i -> p = q
      Jf   every inode that is linked, or remembered in a WantRemove / WantProbe, is < next
      K    content i = Some q -> owns r i -> r = q
      H    pc p = Held i -> content i = Some p            (needed for the Read-of-blank case)
-     G    pc p = Created i -> creator i = Some p         (ties the ghost field to the pcs)
      J3   pc p = WantRemove (Some ex) -> nobody owns ex
      J3p  pc p = WantProbe ex q -> owns r ex -> r = q    (J3 for the split Read/Probe step)
-   Ownership is only ever acquired by creating a fresh inode, so J3/J3p are stable. *)
+   Ownership is only ever acquired by creating a fresh inode, so J3/J3p are stable.
+   Since the repair of C10-F1 the lock file is created with its content (one step from Idle to
+   Held): H makes a blank inode unowned, so a Read needs no guard any more. *)
 From Coq Require Import Arith Bool List Lia.
 From Grog Require Import Lock.
 Import ListNotations.
@@ -22,7 +23,6 @@ Record Inv (s : state) : Prop := mkInv {
   iFp  : forall p i q, pcs s p = WantProbe i q -> i < next s;
   iK   : forall i q r, content s i = Some q -> owns s r i -> r = q;
   iH   : forall p i, pcs s p = Held i -> content s i = Some p;
-  iG   : forall p i, pcs s p = Created i -> creator s i = Some p;
   iJ3  : forall p ex, pcs s p = WantRemove (Some ex) -> forall q, ~ owns s q ex;
   iJ3p : forall p ex q, pcs s p = WantProbe ex q -> forall r, owns s r ex -> r = q }.
 
@@ -51,7 +51,6 @@ Ltac clean :=
 Ltac fwd1 :=
   match goal with
   | H : pcs ?s ?p = Held ?i |- _ => have (owner_of (pcs s p) = Some i) ltac:(rewrite H; reflexivity)
-  | H : pcs ?s ?p = Created ?i |- _ => have (owner_of (pcs s p) = Some i) ltac:(rewrite H; reflexivity)
   | HJ : (forall p i, owner_of (pcs ?s p) = Some i -> lock ?s = Some i),
     H : owner_of (pcs ?s ?p) = Some ?i |- _ => have (lock s = Some i) ltac:(exact (HJ p i H))
   | HJ' : (forall p q i, owner_of (pcs ?s p) = Some i -> owner_of (pcs ?s q) = Some i -> p = q),
@@ -70,8 +69,6 @@ Ltac fwd1 :=
       lazymatch r with q => fail | _ => have (r = q) ltac:(exact (HK i q r H1 H2)) end
   | HH : (forall p i, pcs ?s p = Held i -> content ?s i = Some p), H : pcs ?s ?p = Held ?i |- _ =>
       have (content s i = Some p) ltac:(exact (HH p i H))
-  | HG : (forall p i, pcs ?s p = Created i -> creator ?s i = Some p), H : pcs ?s ?p = Created ?i |- _ =>
-      have (creator s i = Some p) ltac:(exact (HG p i H))
   | HJ3 : (forall p ex, pcs ?s p = WantRemove (Some ex) -> forall q, owner_of (pcs ?s q) <> Some ex),
     H1 : pcs ?s ?p = WantRemove (Some ?ex), H2 : owner_of (pcs ?s ?q) = Some ?ex |- _ =>
       exfalso; exact (HJ3 p ex H1 q H2)
@@ -87,7 +84,7 @@ Ltac crush :=
   try congruence; try lia; eauto;
   try (solve [intro; clean; fwd; (congruence || lia)]).
 
-Ltac dinv HI := destruct HI as [HJ HJ' HFl HFr HFp HK HH HG HJ3 HJ3p].
+Ltac dinv HI := destruct HI as [HJ HJ' HFl HFr HFp HK HH HJ3 HJ3p].
 
 Lemma inv_trycreate : forall s p s', Inv s -> step s (TryCreate p) = Some s' -> Inv s'.
 Proof.
@@ -98,33 +95,18 @@ Proof.
   - constructor; intros; crush.
 Qed.
 
-Lemma inv_writepid : forall s p s', Inv s -> step s (WritePid p) = Some s' -> Inv s'.
+(* a blank inode is owned by nobody (H): no guard is needed *)
+Lemma inv_read : forall s p s', Inv s -> step s (Read p) = Some s' -> Inv s'.
 Proof.
   intros s p s' HI Hs.
-  unfold step in Hs. destruct (pcs s p) eqn:Ep; try discriminate.
-  inversion Hs; subst; clear Hs; dinv HI.
-  constructor; intros; crush.
-Qed.
-
-Lemma inv_read : forall s p s', Inv s -> step s (Read p) = Some s' ->
-  read_before_write s (Read p) = false -> Inv s'.
-Proof.
-  intros s p s' HI Hs Hg.
-  unfold step in Hs. unfold read_before_write in Hg.
+  unfold step in Hs.
   destruct (pcs s p) eqn:Ep; try discriminate.
   destruct (lock s) eqn:El.
   - destruct (content s i) eqn:Ec; inversion Hs; subst; clear Hs; dinv HI.
     + constructor; intros; crush.
-    + destruct (creator s i) eqn:Ecr.
-      * constructor; intros; crush.
-        intro Ho. destruct (pcs s q) eqn:Eq; simpl in Ho; clean.
-        -- pose proof (HG _ _ Eq) as Hc. rewrite Ecr in Hc. clean.
-           rewrite Eq in Hg. simpl in Hg. rewrite Nat.eqb_refl in Hg. discriminate.
-        -- pose proof (HH _ _ Eq). congruence.
-      * constructor; intros; crush.
-        intro Ho. destruct (pcs s q) eqn:Eq; simpl in Ho; clean.
-        -- pose proof (HG _ _ Eq) as Hc. congruence.
-        -- pose proof (HH _ _ Eq). congruence.
+    + constructor; intros; crush.
+      intro Ho. destruct (pcs s q) eqn:Eq; simpl in Ho; clean.
+      pose proof (HH _ _ Eq). congruence.
   - inversion Hs; subst; clear Hs; dinv HI. constructor; intros; crush.
 Qed.
 
@@ -188,11 +170,10 @@ Qed.
 
 (* ---------------------------------------------------------------- mutual exclusion, guarded *)
 Lemma inv_step : forall s e s', Inv s -> step s e = Some s' ->
-  read_before_write s e = false -> remove_of_unexamined_inode s e = false -> Inv s'.
+  remove_of_unexamined_inode s e = false -> Inv s'.
 Proof.
-  intros s e s' HI Hs Hb Hu. destruct e.
+  intros s e s' HI Hs Hu. destruct e.
   - eapply inv_trycreate; eauto.
-  - eapply inv_writepid; eauto.
   - eapply inv_read; eauto.
   - eapply inv_probe; eauto.
   - eapply inv_remove; eauto.
@@ -258,10 +239,10 @@ Qed.
 
 Definition two_holders (s : state) : Prop := exists p q, p <> q /\ holds s p /\ holds s q.
 
-(* which of the two guards fire along a schedule: (read_before_write, remove_of_unexamined_inode) *)
-Definition guards_fired (s : state) (evs : list event) : option (bool * bool) :=
-  match run_flags 0 s evs false false false with
-  | Some (_, b, u, _) => Some (b, u)
+(* does the guard fire along a schedule *)
+Definition guard_fired (s : state) (evs : list event) : option bool :=
+  match run_flags 0 s evs false false with
+  | Some (_, u, _) => Some u
   | None => None
   end.
 
@@ -275,40 +256,31 @@ Proof.
   - intros i H. simpl in H. inversion H. simpl. lia.
 Qed.
 
-Theorem mutex_refuted :
-  (init w1_init /\ guards_fired w1_init w1_sched = Some (true, false) /\
-   exists s, run w1_init w1_sched = Some s /\ reachable w1_init s /\ two_holders s) /\
-  (init w2_init /\ guards_fired w2_init w2_sched = Some (false, true) /\
-   exists s, run w2_init w2_sched = Some s /\ reachable w2_init s /\ two_holders s).
+Lemma holds_of_b : forall s p, holds_b s p = true -> holds s p.
 Proof.
-  split.
-  - split; [exact w1_init_ok|]. split; [vm_compute; reflexivity|].
-    destruct (run w1_init w1_sched) as [s|] eqn:E; [|vm_compute in E; discriminate].
-    exists s. split; [reflexivity|]. split; [eapply run_reachable; eassumption|].
-    exists 0, 1. split; [discriminate|].
-    assert (Hh : holds_b s 0 = true /\ holds_b s 1 = true).
-    { assert (X : match run w1_init w1_sched with Some t => holds_b t 0 && holds_b t 1 | None => false end = true)
-        by (vm_compute; reflexivity).
-      rewrite E in X. apply andb_true_iff in X. exact X. }
-    destruct Hh as [H0 H1]. unfold holds_b in *. unfold holds.
-    split; [destruct (pcs s 0); try discriminate; eauto | destruct (pcs s 1); try discriminate; eauto].
-  - split; [exact w2_init_ok|]. split; [vm_compute; reflexivity|].
-    destruct (run w2_init w2_sched) as [s|] eqn:E; [|vm_compute in E; discriminate].
-    exists s. split; [reflexivity|]. split; [eapply run_reachable; eassumption|].
-    exists 0, 1. split; [discriminate|].
-    assert (Hh : holds_b s 0 = true /\ holds_b s 1 = true).
-    { assert (X : match run w2_init w2_sched with Some t => holds_b t 0 && holds_b t 1 | None => false end = true)
-        by (vm_compute; reflexivity).
-      rewrite E in X. apply andb_true_iff in X. exact X. }
-    destruct Hh as [H0 H1]. unfold holds_b in *. unfold holds.
-    split; [destruct (pcs s 0); try discriminate; eauto | destruct (pcs s 1); try discriminate; eauto].
+  intros s p H. unfold holds_b in H. unfold holds. destruct (pcs s p); try discriminate; eauto.
+Qed.
+
+(* W2 (finding C10-F2): the one guard fires and both 0 and 1 are past Lock() *)
+Theorem mutex_refuted :
+  init w2_init /\ guard_fired w2_init w2_sched = Some true /\
+  exists s, run w2_init w2_sched = Some s /\ reachable w2_init s /\ two_holders s.
+Proof.
+  split; [exact w2_init_ok|]. split; [vm_compute; reflexivity|].
+  destruct (run w2_init w2_sched) as [s|] eqn:E; [|vm_compute in E; discriminate].
+  exists s. split; [reflexivity|]. split; [eapply run_reachable; eassumption|].
+  exists 0, 1. split; [discriminate|].
+  assert (X : match run w2_init w2_sched with Some t => holds_b t 0 && holds_b t 1 | None => false end = true)
+    by (vm_compute; reflexivity).
+  rewrite E in X. apply andb_true_iff in X. destruct X as [H0 H1].
+  split; apply holds_of_b; assumption.
 Qed.
 
 (* the unguarded statement of C10 is false of the model *)
 Corollary mutex_unguarded_false :
   ~ (forall s0 s, init s0 -> reachable s0 s -> forall p q, holds s p -> holds s q -> p = q).
 Proof.
-  intro Hall. destruct mutex_refuted as [[Hi [_ [s [_ [Hr [p [q [Hne [Hp Hq]]]]]]]]] _].
+  intro Hall. destruct mutex_refuted as [Hi [_ [s [_ [Hr [p [q [Hne [Hp Hq]]]]]]]]].
   apply Hne. eapply Hall; eassumption.
 Qed.
 
@@ -321,11 +293,11 @@ Fixpoint run_g (s : state) (evs : list event) : option state :=
   end.
 
 Lemma reachable_g_prepend : forall s0 e s1 s, step s0 e = Some s1 ->
-  read_before_write s0 e = false -> remove_of_unexamined_inode s0 e = false ->
+  remove_of_unexamined_inode s0 e = false ->
   reachable_g s1 s -> reachable_g s0 s.
 Proof.
-  intros s0 e s1 s Hs Hb Hu Hr. induction Hr.
-  - eapply rg_step; [apply rg_init | eassumption | assumption | assumption].
+  intros s0 e s1 s Hs Hu Hr. induction Hr.
+  - eapply rg_step; [apply rg_init | eassumption | assumption].
   - eapply rg_step; eassumption.
 Qed.
 
@@ -335,24 +307,18 @@ Proof.
   - inversion H. apply rg_init.
   - destruct (guarded s0 e) eqn:G; [|discriminate].
     destruct (step s0 e) as [s1|] eqn:Es; [|discriminate].
-    unfold guarded in G. apply andb_true_iff in G. destruct G as [G1 G2].
-    apply negb_true_iff in G1. apply negb_true_iff in G2.
+    unfold guarded in G. apply negb_true_iff in G.
     eapply reachable_g_prepend; eauto.
 Qed.
 
 (* a stale file (PID of dead process 2) is recovered by 0 while 1 contends and waits; 0 unlocks; 1 acquires *)
 Definition nv_unlock_sched : list event :=
-  [TryCreate 0; TryCreate 1; Read 0; Probe 0; Remove 0; TryCreate 0; WritePid 0;
-   Read 1; Probe 1; Unlock 0; Wake 1; TryCreate 1; WritePid 1].
+  [TryCreate 0; TryCreate 1; Read 0; Probe 0; Remove 0; TryCreate 0;
+   Read 1; Probe 1; Unlock 0; Wake 1; TryCreate 1].
 (* ... 0 dies while holding; 1 finds the PID dead, removes the file and acquires *)
 Definition nv_crash_sched : list event :=
-  [TryCreate 0; TryCreate 1; Read 0; Probe 0; Remove 0; TryCreate 0; WritePid 0;
-   Read 1; Probe 1; Crash 0; Wake 1; TryCreate 1; Read 1; Probe 1; Remove 1; TryCreate 1; WritePid 1].
-
-Lemma holds_of_b : forall s p, holds_b s p = true -> holds s p.
-Proof.
-  intros s p H. unfold holds_b in H. unfold holds. destruct (pcs s p); try discriminate; eauto.
-Qed.
+  [TryCreate 0; TryCreate 1; Read 0; Probe 0; Remove 0; TryCreate 0;
+   Read 1; Probe 1; Crash 0; Wake 1; TryCreate 1; Read 1; Probe 1; Remove 1; TryCreate 1].
 
 Theorem mutex_partial_nonvacuous :
   init w2_init /\
@@ -409,12 +375,11 @@ Proof. intros A f k v x H. unfold upd. apply Nat.eqb_neq in H. rewrite H. reflex
 
 Ltac own := split; [reflexivity | discriminate].
 
-(* the file is absent: create, write *)
+(* the file is absent: one call creates it with the PID in it *)
 Lemma acquire_free : forall s p, pcs s p = Idle -> lock s = None -> acquires_alone s p.
 Proof.
   intros s p Ep El.
   eapply acquires_step with (e := TryCreate p); [own | simpl; rewrite Ep, El; reflexivity |].
-  eapply acquires_step with (e := WritePid p); [own | simpl; rewrite upd_same; reflexivity |].
   apply acquires_now. exists (next s). simpl. apply upd_same.
 Qed.
 
@@ -546,7 +511,7 @@ Proof.
 Qed.
 
 (* ---------------------------------------------------------------- cancellation of a waiter *)
-(* [Cancel p]: ctx.Done() wins the select in Lock (workspace_locker.go:80-81). *)
+(* [Cancel p]: ctx.Done() wins the select in Lock (workspace_locker.go, end of the loop). *)
 
 (* an interrupted waiter changes nothing but its own pc *)
 Theorem cancel_frame : forall s p s', step s (Cancel p) = Some s' ->
@@ -566,7 +531,7 @@ Qed.
 Lemma step_other : forall s e s' q, step s e = Some s' -> q <> actor e -> pcs s' q = pcs s q.
 Proof.
   intros s e s' q Hs Hq.
-  destruct e as [p|p|p|p|p|p|p|p|p]; simpl in Hs, Hq;
+  destruct e as [p|p|p|p|p|p|p|p]; simpl in Hs, Hq;
     destruct (pcs s p) eqn:Ep; try discriminate;
     repeat match type of Hs with
            | context[match ?x with _ => _ end] => destruct x
@@ -590,7 +555,7 @@ Lemma blocked_step : forall s h i t e s',
 Proof.
   intros s h i t e s' Hh Hl Hc Hne Hb [Ha Hnc] Hs.
   assert (Hne' : h <> t) by (intro; apply Hne; symmetry; assumption).
-  destruct e as [p|p|p|p|p|p|p|p|p]; simpl in Ha; subst p;
+  destruct e as [p|p|p|p|p|p|p|p]; simpl in Ha; subst p;
     try (exfalso; apply Hnc; reflexivity); simpl in Hs;
     destruct Hb as [E|[E|[E|[E|E]]]]; rewrite E in Hs; try discriminate.
   - (* TryCreate at Idle: EEXIST *)
@@ -666,7 +631,7 @@ Proof.
   assert (Hh1 : pcs s1 h = Held i) by (rewrite Fo; assumption).
   assert (Hl1 : lock s1 = Some i) by (rewrite Fl; assumption).
   assert (Hc1 : content s1 i = Some h) by (rewrite Fc; assumption).
-  split; [eapply rg_step; [exact Hr | exact Hs | reflexivity | reflexivity]|].
+  split; [eapply rg_step; [exact Hr | exact Hs | reflexivity]|].
   split; [assumption|]. split; [assumption|]. split; [assumption|].
   intros t Et.
   assert (Hth : t <> h) by (intro; subst; congruence).
@@ -683,7 +648,7 @@ Qed.
 Lemma gaveup_stuck : forall s w e, pcs s w = GaveUp -> actor e = w -> e <> Crash w -> step s e = None.
 Proof.
   intros s w e Ew Ha Hnc.
-  destruct e as [p|p|p|p|p|p|p|p|p]; simpl in Ha; subst p; simpl; rewrite Ew; try reflexivity.
+  destruct e as [p|p|p|p|p|p|p|p]; simpl in Ha; subst p; simpl; rewrite Ew; try reflexivity.
   exfalso. apply Hnc. reflexivity.
 Qed.
 
@@ -692,7 +657,7 @@ Definition gone (c : pc) : Prop := c = GaveUp \/ c = Dead.
 Lemma gone_step : forall s e s' w, gone (pcs s w) -> step s e = Some s' -> gone (pcs s' w).
 Proof.
   intros s e s' w Hg Hs. destruct (Nat.eq_dec w (actor e)) as [Ha|Ha].
-  - destruct e as [p|p|p|p|p|p|p|p|p]; simpl in Ha; subst p; simpl in Hs;
+  - destruct e as [p|p|p|p|p|p|p|p]; simpl in Ha; subst p; simpl in Hs;
       destruct Hg as [E|E]; rewrite E in Hs; try discriminate.
     inversion Hs; subst. simpl. rewrite upd_same. right. reflexivity.
   - rewrite (step_other _ _ _ _ Hs Ha). assumption.
@@ -753,30 +718,30 @@ Proof. intros c H. destruct c; try discriminate. reflexivity. Qed.
    [waiter_can_give_up] --; 1 is cancelled and 2, started afterwards, waits behind 0's intact
    file; 0 unlocks, 2 wakes up and acquires; 1 has given up for good.  No guard fires. *)
 Theorem cancel_nonvacuous :
-  nc_sched = [TryCreate 0; WritePid 0; TryCreate 1; Read 1; Probe 1; Cancel 1;
-              TryCreate 2; Read 2; Probe 2; Unlock 0; Wake 2; TryCreate 2; WritePid 2] /\
+  nc_sched = [TryCreate 0; TryCreate 1; Read 1; Probe 1; Cancel 1;
+              TryCreate 2; Read 2; Probe 2; Unlock 0; Wake 2; TryCreate 2] /\
   init w1_init /\
-  (exists s, run_g w1_init (firstn 5 nc_sched) = Some s /\ reachable_g w1_init s /\
+  (exists s, run_g w1_init (firstn 4 nc_sched) = Some s /\ reachable_g w1_init s /\
      pcs s 0 = Held 0 /\ pcs s 1 = Waiting /\ pcs s 2 = Idle) /\
-  (exists s, run_g w1_init (firstn 9 nc_sched) = Some s /\ reachable_g w1_init s /\
+  (exists s, run_g w1_init (firstn 8 nc_sched) = Some s /\ reachable_g w1_init s /\
      pcs s 0 = Held 0 /\ pcs s 1 = GaveUp /\ pcs s 2 = Waiting /\
      lock s = Some 0 /\ content s 0 = Some 0) /\
   (exists s, run_g w1_init nc_sched = Some s /\ reachable_g w1_init s /\
      holds s 2 /\ pcs s 1 = GaveUp /\ pcs s 0 = Done).
 Proof.
   split; [reflexivity|]. split; [exact w1_init_ok|]. split; [|split].
-  - destruct (run_g w1_init (firstn 5 nc_sched)) as [s|] eqn:E; [|vm_compute in E; discriminate].
+  - destruct (run_g w1_init (firstn 4 nc_sched)) as [s|] eqn:E; [|vm_compute in E; discriminate].
     exists s. split; [reflexivity|]. split; [eapply run_g_reachable_g; eassumption|].
-    assert (X : match run_g w1_init (firstn 5 nc_sched) with
+    assert (X : match run_g w1_init (firstn 4 nc_sched) with
                 | Some t => pc_is_held_at (pcs t 0) 0 && pc_is_waiting (pcs t 1) && pc_is_idle (pcs t 2)
                 | None => false end = true) by (vm_compute; reflexivity).
     rewrite E in X. apply andb_true_iff in X. destruct X as [X X3].
     apply andb_true_iff in X. destruct X as [X1 X2].
     split; [apply pc_is_held_at_eq; assumption|].
     split; [apply pc_is_waiting_eq; assumption | apply pc_is_idle_eq; assumption].
-  - destruct (run_g w1_init (firstn 9 nc_sched)) as [s|] eqn:E; [|vm_compute in E; discriminate].
+  - destruct (run_g w1_init (firstn 8 nc_sched)) as [s|] eqn:E; [|vm_compute in E; discriminate].
     exists s. split; [reflexivity|]. split; [eapply run_g_reachable_g; eassumption|].
-    assert (X : match run_g w1_init (firstn 9 nc_sched) with
+    assert (X : match run_g w1_init (firstn 8 nc_sched) with
                 | Some t => pc_is_held_at (pcs t 0) 0 && pc_is_gaveup (pcs t 1) && pc_is_waiting (pcs t 2)
                             && opt_inode_eqb (lock t) (Some 0) && opt_inode_eqb (content t 0) (Some 0)
                 | None => false end = true) by (vm_compute; reflexivity).
@@ -796,4 +761,140 @@ Proof.
     apply andb_true_iff in X. destruct X as [X1 X2].
     split; [apply holds_of_b; assumption|].
     split; [apply pc_is_gaveup_eq; assumption | apply pc_is_done_eq; assumption].
+Qed.
+
+(* ---------------------------------------------------------------- the lock file names its creator *)
+(* (repair of finding C10-F1) every inode a process has created carries that process's PID, from
+   the step that makes it visible on: no guard, every step, every schedule *)
+Definition created_named (s : state) : Prop :=
+  forall i p, creator s i = Some p -> content s i = Some p.
+
+Lemma created_named_step : forall s e s', created_named s -> step s e = Some s' -> created_named s'.
+Proof.
+  intros s e s' Hn Hs i r Hc.
+  destruct e as [p|p|p|p|p|p|p|p]; simpl in Hs;
+    destruct (pcs s p) eqn:Ep; try discriminate;
+    repeat match type of Hs with
+           | context[match ?x with _ => _ end] => destruct x eqn:?
+           end;
+    try discriminate; inversion Hs; subst; clear Hs; simpl in *; try (apply Hn; assumption).
+  unfold upd in *. destruct (Nat.eqb i (next s)); [assumption | apply Hn; assumption].
+Qed.
+
+Theorem lock_file_never_empty : forall s0 s,
+  created_named s0 -> reachable s0 s -> created_named s.
+Proof.
+  intros s0 s H0 Hr. induction Hr as [|s e s' Hr IH Hs]; [assumption|].
+  eapply created_named_step; eassumption.
+Qed.
+
+Corollary lock_file_names_creator : forall s0 s,
+  (forall i, creator s0 i = None) -> reachable s0 s ->
+  forall i p, creator s i = Some p -> content s i = Some p.
+Proof.
+  intros s0 s H0. apply lock_file_never_empty. intros i p H. rewrite H0 in H. discriminate H.
+Qed.
+
+(* inodes made since the start all have a creator; what the path names is never a future inode *)
+Record Fresh (s0 s : state) : Prop := mkFresh {
+  fN : next s0 <= next s;
+  fC : forall i, next s0 <= i -> i < next s -> exists p, creator s i = Some p;
+  fL : forall i, lock s = Some i -> i < next s }.
+
+Lemma fresh_step : forall s0 s e s', Fresh s0 s -> step s e = Some s' -> Fresh s0 s'.
+Proof.
+  intros s0 s e s' [HN HC HL] Hs.
+  destruct e as [p|p|p|p|p|p|p|p]; simpl in Hs;
+    destruct (pcs s p) eqn:Ep; try discriminate;
+    repeat match type of Hs with
+           | context[match ?x with _ => _ end] => destruct x eqn:?
+           end;
+    try discriminate; inversion Hs; subst; clear Hs;
+    try (constructor; simpl; solve [assumption | intros; discriminate | intros; apply HL; congruence]).
+  constructor; simpl.
+  - lia.
+  - intros j Hlo Hhi. unfold upd. destruct (Nat.eqb_spec j (next s)) as [->|Hne]; [eauto|].
+    apply HC; lia.
+  - intros j Hj. inversion Hj; subst. lia.
+Qed.
+
+Lemma fresh_reachable : forall s0 s, init s0 -> reachable s0 s -> Fresh s0 s.
+Proof.
+  intros s0 s [_ Hl] Hr. induction Hr as [|s e s' Hr IH Hs].
+  - constructor; [lia | intros i H1 H2; lia | assumption].
+  - eapply fresh_step; eassumption.
+Qed.
+
+(* a contender that reads the lock file and finds no PID in it is looking at a file that was
+   there before any process started: a file created by Lock() is never seen empty *)
+Theorem blank_read_is_preexisting : forall s0 s p s' i,
+  init s0 -> (forall j, creator s0 j = None) -> reachable s0 s ->
+  step s (Read p) = Some s' -> pcs s' p = WantRemove (Some i) ->
+  lock s = Some i /\ content s i = None /\ creator s i = None /\ i < next s0.
+Proof.
+  intros s0 s p s' i Hi Hc0 Hr Hs Hp.
+  assert (Hn : created_named s).
+  { eapply lock_file_never_empty; [|exact Hr]. intros j q Hj. rewrite Hc0 in Hj. discriminate. }
+  destruct (fresh_reachable _ _ Hi Hr) as [HN HC HL].
+  simpl in Hs. destruct (pcs s p) eqn:Ep; try discriminate.
+  destruct (lock s) as [j|] eqn:El.
+  - destruct (content s j) as [q|] eqn:Ec; inversion Hs; subst; clear Hs;
+      simpl in Hp; rewrite upd_same in Hp; inversion Hp; subst.
+    assert (Hcr : creator s i = None).
+    { destruct (creator s i) as [r|] eqn:Er; [|reflexivity]. rewrite (Hn _ _ Er) in Ec. discriminate. }
+    repeat split; try assumption.
+    destruct (le_lt_dec (next s0) i) as [Hge|Hlt]; [|assumption].
+    destruct (HC i Hge (HL _ eq_refl)) as [r Hr']. congruence.
+  - inversion Hs; subst; clear Hs. simpl in Hp. rewrite upd_same in Hp. discriminate.
+Qed.
+
+(* ---------------------------------------------------------------- W1, repaired *)
+(* The schedule that used to give two holders (finding C10-F1): 0 creates, 1 finds the file and
+   reads it at once.  The old continuation -- 1 removes the "empty" file -- is not a step any more;
+   1 has read 0's PID, probes it and waits behind 0's intact file.  The guard does not fire, so the
+   state is in the guarded relation and [mutex_partial] applies to it. *)
+Theorem w1_repaired :
+  w1_sched = [TryCreate 0; TryCreate 1; Read 1; Probe 1] /\
+  init w1_init /\ guard_fired w1_init w1_sched = Some false /\
+  run w1_init [TryCreate 0; TryCreate 1; Read 1; Remove 1] = None /\
+  exists s, run_g w1_init w1_sched = Some s /\ reachable_g w1_init s /\
+    pcs s 0 = Held 0 /\ pcs s 1 = Waiting /\ lock s = Some 0 /\ content s 0 = Some 0 /\
+    forall p q, holds s p -> holds s q -> p = q.
+Proof.
+  split; [reflexivity|]. split; [exact w1_init_ok|]. split; [vm_compute; reflexivity|].
+  split; [vm_compute; reflexivity|].
+  destruct (run_g w1_init w1_sched) as [s|] eqn:E; [|vm_compute in E; discriminate].
+  assert (Hr : reachable_g w1_init s) by (eapply run_g_reachable_g; eassumption).
+  exists s. split; [reflexivity|]. split; [assumption|].
+  assert (X : match run_g w1_init w1_sched with
+              | Some t => pc_is_held_at (pcs t 0) 0 && pc_is_waiting (pcs t 1)
+                          && opt_inode_eqb (lock t) (Some 0) && opt_inode_eqb (content t 0) (Some 0)
+              | None => false end = true) by (vm_compute; reflexivity).
+  rewrite E in X. apply andb_true_iff in X. destruct X as [X X4].
+  apply andb_true_iff in X. destruct X as [X X3]. apply andb_true_iff in X. destruct X as [X1 X2].
+  split; [apply pc_is_held_at_eq; assumption|]. split; [apply pc_is_waiting_eq; assumption|].
+  split; [|split].
+  - destruct (lock s) as [j|]; simpl in X3; [|discriminate]. apply Nat.eqb_eq in X3. subst. reflexivity.
+  - destruct (content s 0) as [j|]; simpl in X4; [|discriminate]. apply Nat.eqb_eq in X4. subst. reflexivity.
+  - eapply mutex_partial; [exact w1_init_ok | exact Hr].
+Qed.
+
+(* the hypotheses of the two theorems on created files hold of every [mk_init] configuration, and
+   both conclusions are exercised: from an EMPTY pre-existing lock file (inode 0), 0 reads it blank
+   (inode 0 < next = 1, no creator), removes it and creates inode 1, which names its creator *)
+Definition blank_init : state := mk_init [] (Some None).
+
+Example created_files_nonvacuous :
+  (forall dead lk, created_named (mk_init dead lk) /\ forall j, creator (mk_init dead lk) j = None) /\
+  init blank_init /\
+  (exists s s', run blank_init [TryCreate 0] = Some s /\ step s (Read 0) = Some s' /\
+     pcs s' 0 = WantRemove (Some 0) /\ 0 < next blank_init) /\
+  (exists s, run blank_init [TryCreate 0; Read 0; Remove 0; TryCreate 0] = Some s /\
+     lock s = Some 1 /\ creator s 1 = Some 0 /\ content s 1 = Some 0 /\ content s 0 = None).
+Proof.
+  split; [|split; [|split]].
+  - intros dead lk. split; [intros i p H; discriminate H | reflexivity].
+  - split; [intro p; left; reflexivity | intros i H; inversion H; simpl; lia].
+  - eexists. eexists. split; [reflexivity|]. split; [reflexivity|]. split; [reflexivity | simpl; lia].
+  - eexists. split; [reflexivity|]. repeat split; reflexivity.
 Qed.
